@@ -495,7 +495,38 @@ def r14_4(prog, rep):
     eps = P.paths_of(prog, entry)
     untouched = any(p.exit[0] == "return" and p.exit[1] == ev0 and any((not pol) and (T.is_call_to(a, f"{C.INSP}.istexttype") or T.is_call_to(a, "builtins.isinstance")) for a, pol in T.derive_atoms(p.guards())) for p in eps)
     rep.check(untouched, "R14.4", entry.qualname, entry.loc, "what is no text is returned untouched by the entry itself", "strload() hands whatever it is given to the memoised parser: strload([1, 2]) raises TypeError (unhashable), strload(True) is answered 1.0 after strload(1.0) -- load() returns the same inputs untouched", detail="entry-nontext")
-    exact = any(T.contains(tm, lambda x: (x[0] == "cmp" and x[1] in ("is", "isnot") and ("ref", "builtins.str") in x[2:4]) or T.is_call_to(x, "builtins.str.__str__")) for p in eps for tm in p.all_terms())
+    # every argument that reaches the parser is the result of str.__str__ / str(), or its class has been compared with str -- and found equal
+    exact = True
+    n_parse = 0
+    for p in eps:
+        atoms = T.derive_atoms(p.guards())
+        for tm in p.all_terms():
+            for x in T.walk(tm):
+                if x[0] == "call" and (T.refname(x[1]) == f.qualname or (x[1][0] == "attr" and x[1][2] == "__wrapped__" and T.refname(x[1][1]) == f.qualname)) and x[2]:
+                    a = x[2][0]
+                    n_parse += 1
+                    made = T.is_call_to(a, "builtins.str.__str__", "builtins.str")
+                    known = any(val and at[0] == "cmp" and at[1] == "is" and ("ref", "builtins.str") in at[2:4] and (("attr", a, "__class__") in at[2:4] or ("call", ("ref", "builtins.type"), (a,), ()) in at[2:4]) for at, val in atoms)
+                    if not (made or known):
+                        exact = False
+    exact = exact and n_parse > 0
+    # running out of stack or memory while parsing ordinary text (long runs of operators) is not raised to the caller of load():
+    # every call of the parser in the entry sits under a handler for RecursionError and MemoryError
+    import ast as _ast
+
+    unguarded = []
+    for node in _ast.walk(entry.node):
+        if isinstance(node, _ast.Call) and f.name in _ast.unparse(node.func) and f is not entry:
+            covered = set()
+            for tr in _ast.walk(entry.node):
+                if isinstance(tr, _ast.Try) and any(node is sub for b in tr.body for sub in _ast.walk(b)):
+                    for h in tr.handlers:
+                        names = [_ast.unparse(e) for e in (h.type.elts if isinstance(h.type, _ast.Tuple) else [h.type])] if h.type is not None else ["BaseException"]
+                        covered |= set(names)
+            if not ({"RecursionError", "MemoryError"} <= covered or covered & {"Exception", "BaseException"}):
+                unguarded.append(sorted(covered))
+    if f is not entry:
+        rep.check(not unguarded, "R14.4", entry.qualname, entry.loc, "every call of the parser in the entry is under handlers for RecursionError and MemoryError", f"a call of the parser in strload() is covered for {unguarded[:1]} only: ordinary text with a long run of operators ('1+1+…', a path of thousands of segments) exhausts the literal parser and load() raises instead of returning the text", detail="entry-resource-errors")
     rep.check(exact, "R14.4", entry.qualname, entry.loc, "the text handed to the parsers is an exact str", "an instance of a str subclass is handed to the parsers as it is: the JSON decoder reads exact str only and reports anything else as 'not JSON' (load(Text('{\"a\": null}')) returns the text; unmarshal(list[bool], Text('[true, false]')) gives one True per character), and unparsed text is remembered as that very object for every equal text", detail="entry-exact-str")
     rep.check(json_first, "R14.4", f.qualname, f.loc, "JSON is tried first on the input", "the JSON decoder is not the first attempt", detail="json-first")
     rep.check(lit_second, "R14.4", f.qualname, f.loc, "literal_eval is tried second, on the decoded text", "literal_eval is not the second attempt or does not receive decode(val)", detail="literal-second")
